@@ -377,6 +377,7 @@ type confirmed struct {
 	V      interp.Violation
 	Native []string
 	File   string
+	Params map[string]int
 }
 
 func checkMain(id, tier string) int {
@@ -521,17 +522,16 @@ func checkMain(id, tier string) int {
 		isViolation bool
 		v           interp.Violation
 		w           witness
+		params      map[string]int
 	}
 	metas := map[int]rmeta{}
 	byPkgRuns := map[string][]replayRun{}
 	nextID := 0
 	entryPkg := map[string]string{}
-	entryParams := map[string]map[string]int{}
 	for _, e := range cfg.Entries {
 		entryPkg[e.Func] = e.Pkg
 	}
 	for _, st := range stats {
-		entryParams[st.Entry] = st.Params
 		groups := map[string]int{}
 		for _, v := range st.violations {
 			key := v.Entry + "|" + v.Kind + "|" + v.Msg + "|" + v.Known
@@ -540,7 +540,7 @@ func checkMain(id, tier string) int {
 			}
 			groups[key]++
 			nextID++
-			metas[nextID] = rmeta{isViolation: true, v: v}
+			metas[nextID] = rmeta{isViolation: true, v: v, params: st.Params}
 			p := entryPkg[v.Entry]
 			byPkgRuns[p] = append(byPkgRuns[p], replayRun{ID: nextID, Entry: v.Entry, Params: st.Params, Script: v.Script})
 		}
@@ -586,7 +586,7 @@ func checkMain(id, tier string) int {
 				if sameTrace(want, o.Trace) {
 					validated++
 					if m.isViolation {
-						confirmedV = append(confirmedV, confirmed{V: m.v, Native: o.Trace})
+						confirmedV = append(confirmedV, confirmed{V: m.v, Native: o.Trace, Params: m.params})
 					}
 				} else {
 					what := "path witness"
@@ -625,7 +625,7 @@ func checkMain(id, tier string) int {
 		vfile++
 		path := filepath.Join(verifDir, "replays", fmt.Sprintf("%s-%s-%d.json", id, tier, vfile))
 		rb, _ := json.MarshalIndent(map[string]interface{}{
-			"property": cfg.Property, "entry": c.V.Entry, "package": entryPkg[c.V.Entry], "params": entryParams[c.V.Entry],
+			"property": cfg.Property, "entry": c.V.Entry, "package": entryPkg[c.V.Entry], "params": c.Params,
 			"kind": c.V.Kind, "message": c.V.Msg, "script": c.V.Script, "predicted_trace": c.V.Trace, "native_trace": c.Native,
 			"how": "gosym replay " + path,
 		}, "", " ")
